@@ -289,7 +289,7 @@ func runC16(c *Ctx) {
 	}
 	o := c.Obl("R1", fname(f), "exactly one uniform draw rand.Intn(100) per datagram, dropped iff draw < chance with chance the configured int (so chance <= 0 never drops and chance >= 100 always does)", 2)
 	var draws []*ssa.Call
-	instrsOf(f, func(in ssa.Instruction) {
+	instrsOfU(f, func(in ssa.Instruction) {
 		if call, ok := in.(*ssa.Call); ok {
 			n := callName(call)
 			if strings.HasPrefix(n, "math/rand.") || strings.HasPrefix(n, "math/rand/v2.") || strings.HasPrefix(n, "(*math/rand.Rand).") {
@@ -361,13 +361,16 @@ func runC16(c *Ctx) {
 
 	o = c.Obl("R2", fname(f), "whatever is forwarded is the very chunk received, at most once, to the wrapped NIC, and nothing else is written", 1)
 	nF := 0
-	instrsOf(f, func(in ssa.Instruction) {
+	instrsOfU(f, func(in ssa.Instruction) {
 		switch x := in.(type) {
 		case *ssa.Call:
+			if helperCallee(x) != nil {
+				return // a private helper: its instructions are visited as part of the unit
+			}
 			if isNICForward(in, "vnet.LossFilter") {
 				nF++
 				o.Site(in.Pos(), "forward")
-				if !sameOrigin(x.Call.Args[0], ssa.Value(f.Params[1])) {
+				if !sameOrigin(originAt(x.Call.Args[0], in), ssa.Value(f.Params[1])) {
 					o.Fail(in.Pos(), "the forwarded chunk is not the received one (a copy made by Clone drops fields of TCP chunks)")
 				}
 			} else if x != d {
